@@ -37,11 +37,24 @@ TRead == /\ Ev.e = "Read"
          /\ UNCHANGED <<cs, demand, spawned, last, ever, n0, foreign>>
          /\ nc' = (nc \/ ~Read)
 
-TEnv == /\ \/ Ev.e = "WriteDemand" /\ WriteDemand(Ev.v)
-           \/ Ev.e = "ChildSet" /\ ChildSet(Ev.i, Ev.attr, Ev.v)
-           \/ Ev.e = "SelfDisable" /\ SelfDisable(Ev.i)
-           \/ Ev.e = "Collect" /\ Collect(Ev.i)
-        /\ UNCHANGED nc
+\* environment actions the driver performed on the real objects.  The driver only performs
+\* them where the REAL state allows it; if the observed table (which the formulas are judged
+\* on) disagrees - the code has put a child somewhere the specification does not know - the
+\* event is still consumed: the trace is no behaviour from here on, the formulas go on
+EnvGuard == CASE Ev.e = "ChildSet" -> Ev.i \in Alive
+              [] Ev.e = "SelfDisable" -> Ev.i \in Hatch
+              [] Ev.e = "Collect" -> Ev.i \in Mort
+              [] OTHER -> TRUE
+TEnv == /\ Ev.e \in {"WriteDemand", "ChildSet", "SelfDisable", "Collect"}
+        /\ IF EnvGuard
+           THEN /\ \/ Ev.e = "WriteDemand" /\ WriteDemand(Ev.v)
+                   \/ Ev.e = "ChildSet" /\ ChildSet(Ev.i, Ev.attr, Ev.v)
+                   \/ Ev.e = "SelfDisable" /\ SelfDisable(Ev.i)
+                   \/ Ev.e = "Collect" /\ Collect(Ev.i)
+                /\ UNCHANGED nc
+           ELSE /\ nc' = TRUE
+                /\ act' = [name |-> Ev.e, i |-> 0, attr |-> "", v |-> 0]
+                /\ UNCHANGED <<cs, demand, spawned, last, ever, obs, n0, foreign>>
 
 TraceNext == Step /\ (TAdjust \/ TRead \/ TEnv)
 TraceSpec == TraceInit /\ [][TraceNext]_tvars
